@@ -1,0 +1,39 @@
+//go:build verif
+
+// Contracts for package bodyprocessors: multipart request body, C03 / C20 extension of the unit declared in
+// zz_contracts_verif.go (comment-only file; no code). Trusted library contracts: /verif/specs/reqdata2.spec.
+package bodyprocessors
+
+// lastOriginName: the result of the most recent originFileName call (ghost instrumentation, definitional effect): lets
+// the exit clause of the parts loop speak about "the current part is a file" on every exit edge.
+//@ ghost var lastOriginName string
+//@ func originFileName props C03,C20
+//@   requires partNotNil: p != nil
+//@   modifies inferred, lastOriginName
+//@   ensures def_recorded: lastOriginName == result
+
+// (a) the parts loop ends cleanly ONLY on the bare end-of-parts indication of mime/multipart (err == io.EOF) or after a
+// part whose read hit a tolerated unexpected EOF; any other NextPart error -- including one that merely wraps io.EOF --
+// is RETURNED by ProcessRequest: "a body-processor error surfaces as a returned error ..., never as a body silently
+// treated as inspected" (C20). lastPartErr / nextPartCalls: the error of the most recent NextPart call / the number of
+// calls (ghost, /verif/specs/reqdata2.spec).
+// (b) every file part that was read (with or without a tolerated unexpected EOF) is recorded in FILES, FILES_NAMES,
+// FILES_SIZES and (with a file system) FILES_TMPNAMES before the loop may stop, and every non-file part is added to
+// ARGS_POST under its name (C03: "never silently dropped").
+//@ func (*multipartBodyProcessor).ProcessRequest extend props C03,C20
+//@   requires vNotNil: !isnil(v)
+//@   ensures cleanOnlyOnEOF: isnil(result) ==> nextPartCalls > old(nextPartCalls) && (lastPartErr == io.EOF || isnil(lastPartErr))
+//@   ensures otherErrorsReturned: nextPartCalls > old(nextPartCalls) && !isnil(lastPartErr) && lastPartErr != io.EOF ==> result == lastPartErr
+//@   at call "p.FormName()" requires partDelivered: isnil(lastPartErr) && p != nil
+// the strict-error flag is raised only for an error that is then returned
+//@   at call "v.MultipartStrictError().(*collections.Single).Set(" requires flagOnlyWithError: !isnil(err)
+//@   at call "filesCol.Add(" requires toFiles: filesCol == txvFiles(old(v)) && arg(0) == "" && arg(1) == filename && filename != "" && filename == lastOriginName
+//@   at call "filesNamesCol.Add(" requires toFilesNames: filesNamesCol == txvFilesNames(old(v)) && arg(0) == "" && arg(1) == partFormName(p) && in(filename, addedVals)
+//@   at call "fileSizesCol.SetIndex(" requires toFilesSizes: fileSizesCol == txvFilesSizes(old(v)) && arg(0) == filename && arg(1) == 0
+//@   at call "filesTmpNamesCol.Add(" requires toTmpNames: filesTmpNamesCol == txvFilesTmpNames(old(v)) && arg(0) == "" && arg(1) == temp.name
+//@   at call "postCol.Add(" requires toArgsPost: postCol == txvArgsPost(old(v)) && arg(0) == partFormName(p) && arg(1) == str(data) && filename == ""
+//@   loop 1
+//@     invariant lastOK: nextPartCalls >= old(nextPartCalls) && (nextPartCalls > old(nextPartCalls) ==> isnil(lastPartErr))
+//@     step fileRecorded: filename != "" ==> in(filename, addedVals) && in(partFormName(p), addedVals)
+// UNPROVED: step fieldRecorded: lastOriginName == "" ==> in(str(data), addedVals)   (engine: `data` is not visible on the back edge coming from the file branch; the field case is covered by `toArgsPost` only)
+//@     exits recordedBeforeStop: isnil(lastPartErr) && isnil(err) && lastOriginName != "" ==> in(lastOriginName, addedVals) && in(partFormName(p), addedVals)
